@@ -6,7 +6,7 @@ a real adapter showed: the request captured by the scripted server and the value
   adp <adapter 0..3> <target> <accept> <content-type> <authorization|n> <request body>
       ( r <status> <ct|n> <body>  |  f <0 refused|1 closed-before-reply|3 garbage-status-line>  |  f 2 <status> <ct|n> )
       `|`  ( n | q <method> <target> <accept list> <content-type list> <authorization list> <body> )
-           ( ok <status> <ct|n> <body> | err )
+           ( ok <status> <ct|n> <body> | err <HttpClientError variant: Reqwest|Http|Io|Other|..> )
 
 The observation is used for comparison only; which glue version the checked tree behaves as is
 REPORTED in the tag (`both`, `fixed`, `pinned`), never used to pick the model. -/
@@ -50,7 +50,7 @@ structure Captured where
   authorization : List Bytes
   body : Bytes
 
-inductive Returned | ok (r : Response) | err
+inductive Returned | ok (r : Response) | err (variant : String)
 
 structure Case where
   a : Id
@@ -93,7 +93,7 @@ def parse : P Case := do
     else failure : P (Option Captured))
   let o ← tok
   let returned ← (do
-    if o == "err" then pure Returned.err
+    if o == "err" then (do let v ← tok; pure (Returned.err v))
     else if o == "ok" then
       let st ← nat; let ct ← bigOpt; let b ← bigBytes
       pure (Returned.ok { status := st, contentType := ct, body := b })
@@ -113,12 +113,22 @@ def showOutcome : Outcome → String
 
 def showReturned : Returned → String
   | .ok r => s!"ok {r.status} {hexOpt r.contentType} len{r.body.length}"
-  | .err => "err"
+  | .err v => s!"err({v})"
+
+def variantName : Err → String
+  | .lib => "Reqwest" | .http => "Http" | .io => "Io" | .other => "Other"
+
+/-- informational only (the property asks for "an error value", not for a particular variant):
+does the returned `HttpClientError` variant coincide with the one the glue model predicts? -/
+def variantTag (m : Outcome) (o : Returned) : String :=
+  match m, o with
+  | .error e, .err v => if variantName e == v then "-ev1" else "-ev0"
+  | _, _ => ""
 
 def agrees (m : Outcome) (o : Returned) : Bool :=
   match m, o with
   | .ok r, .ok r' => r == r'
-  | .error _, .err => true
+  | .error _, .err _ => true
   | _, _ => false
 
 def serverTag : WireReply ⊕ Fault → String
@@ -160,9 +170,9 @@ def run (args : List String) : String :=
       let mp := adapter .pinned c.a c.server
       let af := agrees mf c.returned
       let ap := agrees mp c.returned
-      if af && ap then s!"ok {idName c.a}-{serverTag c.server}-both"
-      else if af then s!"ok {idName c.a}-{serverTag c.server}-fixed"
-      else if ap then s!"ok {idName c.a}-{serverTag c.server}-pinned"
+      if af && ap then s!"ok {idName c.a}-{serverTag c.server}{variantTag mf c.returned}-both"
+      else if af then s!"ok {idName c.a}-{serverTag c.server}{variantTag mf c.returned}-fixed"
+      else if ap then s!"ok {idName c.a}-{serverTag c.server}{variantTag mp c.returned}-pinned"
       else diff "returned" (showOutcome mf) (showReturned c.returned)
 
 end Drv.AdapterOp
